@@ -81,4 +81,22 @@ PROPS = {
               {"plain": {"workers": 8, "fixed": True}, "asan": {"workers": 8, "fixed": True}},
               {"plain": {"workers": 8, "fixed": True}, "asan": {"workers": 8, "fixed": True}}),
     ),
+    "C10": dict(
+        level="fault_enumeration",
+        rule=("one plan = one generated nest of frames (def, lambda, method, bind, for_each/map callback, attribute-held function, C++ "
+              "std::function trampoline), wrappers (block, if, for, while, switch, ranged for) and <=3 try statements with 0..3 typed/untyped "
+              "catch clauses and optional finally (catch/finally bodies may throw themselves). EVERY leaf of the nest in turn is the throw site "
+              "x EVERY thrown kind (10) x {no exception_specification, <int,string>} (specification only for script-thrown values), each on a "
+              "fresh engine. evaluations = individual executions; each (nest, site, kind, spec) is a distinct non-trivial case. Oracle: "
+              "reference interpreter of try/catch/finally (DESIGN.md appendix B) predicting the exact t() trace and how the exception leaves eval."),
+        real_vs_stub=REAL,
+        assumptions=COMMON_ASSUME + ["throw sites and kinds are exhaustive per nest; nests are sampled",
+                                     "C++ exceptions that cannot be boxed (user class, int) bypass script catch clauses, run finally blocks and leave with their own type, as the code documents",
+                                     "guarded catch clauses (catch(e) : cond) and re-throwing the caught variable are not generated"],
+        expected_probes=["probe_no_clause_matched", "probe_try_finally_without_catch", "probe_catch_block_threw", "probe_finally_ran_while_unwinding",
+                         "probe_earlier_clause_skipped", "probe_unrepresentable_bypassed_clauses", "probe_caught_typed"],
+        **two(40, 420,
+              {"plain": {"workers": 10}, "asan": {"workers": 6}},
+              {"plain": {"workers": 10}, "asan": {"workers": 6}}),
+    ),
 }
